@@ -152,7 +152,7 @@ def programs(draw, opts=None):
         if mod < nmods - 1 and draw(st.integers(0, 2)) == 0:
             mod += 1
         last = i == nfuncs - 1
-        data = draw(st.integers(0, 2)) == 0
+        data = draw(st.integers(0, opts.get("data_den", 3) - 1)) == 0
         params = []
         if not data:
             for pi in range(draw(st.integers(0, 2))):
